@@ -14,7 +14,7 @@ from ..core.prop import Prop
 from ..gen import tables as T
 from ..seams import faults as F
 
-STR_POOLS = [['a', 'b', 'ab', 'abc', 'B', 'é', 'zz'], ['a', 'a ', 'a!', 'a/', 'a0', 'aa', 'a~'], ['x', 'xy', 'xyz', 'x ', 'x-'], ['é', 'e', 'ë', 'z', 'Z', '\U0001F600', 'זה'], ['k1', 'k10', 'k2', 'k'],
+STR_POOLS = [['a', 'b', 'ab', 'abc', 'B', 'é', 'zz'], ['a', 'a ', 'a!', 'a/', 'a0', 'aa', 'a~'], ['x', 'xy', 'xyz', 'x ', 'x-'], ['é', 'e', 'ë', 'z', 'Z', '\U0001F600', 'זה'], ['k1', 'k10', 'k2', 'k'], ['total', 'total\tnet', 'total\nof year', 'total\r\n', 'total ', 'tota', 'total\x01'],
              ['10', '9', '1.0', '1', ' 7', '1e3', '-5', 'nan', 'inf', '1_0', 'zebra']]     # text that looks like numbers is still text
 NUM_POOLS = [[0, 1, -1, 2, 10, -10, 100], [0.5, -0.5, 1.25, -1.25, 0.0, 2.0], [1e10, -1e10, 1e-5, -1e-5, 3.0, -3.0], [1e300, -1e300, -1e232, 1e200, -1e200, 5.0],
              [decimal.Decimal('1.5'), decimal.Decimal('-2.25'), decimal.Decimal('100'), decimal.Decimal('0.001'), 7, -7.5], [2**40, -2**40, 2**52, 12345, -12345], [0, 0.0, -0.0, 1, -1],
@@ -36,13 +36,22 @@ def _run(payload, sub):
             key = lambda row: '%04d' % len(str(row['s']))   # noqa
         else:
             key = lambda row: str(row['s'])              # noqa
-    links = [DF.load((desc, [iter(rows)]), strip=False)]
+    iters = [iter(rows)]
+    pre_ids = None
+    if sc.get('pre'):
+        # another resource sorted by the same step, *before* the main one, whose key fields are text where the main one's are numbers
+        prows = T.rows_of(sc['pre'])
+        desc['resources'].insert(0, {'name': 'pre', 'path': 'pre.csv', 'profile': 'tabular-data-resource', 'schema': {'fields': [dict(f) for f in sc['pre']['fields']]}})
+        iters.insert(0, iter(prows))
+    links = [DF.load((desc, iters), strip=False)]
     if sc.get('other'):
         links.append([{'_id': 5000 + i, 'n': 1} for i in range(3)])
-    links.append(DF.sort_rows(key, resources='res', reverse=sc.get('reverse', False), batch_size=payload.get('batch_size', 1000)))
+    links.append(DF.sort_rows(key, resources=['pre', 'res'] if sc.get('pre') else 'res', reverse=sc.get('reverse', False), batch_size=payload.get('batch_size', 1000)))
     ds = DF.Flow(*links).datastream()
     out = [list(r) for r in ds.res_iter]
-    return {'ids': [r['_id'] for r in out[0]], 'other': [r['_id'] for r in out[1]] if len(out) > 1 else None, 'kv_ops': kv['n'],
+    if sc.get('pre'):
+        pre_ids = [r['_id'] for r in out.pop(0)]
+    return {'pre_ids': pre_ids, 'ids': [r['_id'] for r in out[0]], 'other': [r['_id'] for r in out[1]] if len(out) > 1 else None, 'kv_ops': kv['n'],
             'same_content': [{k: T.enc(v) for k, v in r.items()} for r in out[0]] == [{k: T.enc(v) for k, v in r.items()} for r in sorted(rows, key=lambda r: [x['_id'] for x in out[0]].index(r['_id']))] if len(out[0]) == len(rows) and set(r['_id'] for r in out[0]) == set(r['_id'] for r in rows) else False}
 
 
@@ -93,7 +102,7 @@ class C12(Prop):
             'resource passing by. Non-trivial = at least two rows share a key and at least two differ; distinct = distinct (key form, value pools, reverse, knobs, size).')
     ASSUMPTIONS = ['numeric key values are distinct in double precision (the encoding\'s stated domain) and key fields are non-null', 'multi-field keys put numeric fields before text so that the order does not depend on the particular order-preserving number encoding']
     REAL_VS_STUB = {'real': ['dataflows sort_rows', 'kvfile + sqlite ordering'], 'stub': ['KVFile twin: cache-size knob and operation counter']}
-    PROBES = ['reverse', 'spill-path', 'prefix-strings-below-0', 'negative-zero', 'huge-negative', 'decimal-values', 'callable-key', 'format-string-key', 'field-list-key', 'two-field-key', 'ties', 'other-resource', 'rows>10240', 'equal-numbers-different-spelling', 'numeric-looking-text']
+    PROBES = ['reverse', 'spill-path', 'prefix-strings-below-0', 'negative-zero', 'huge-negative', 'decimal-values', 'callable-key', 'format-string-key', 'field-list-key', 'two-field-key', 'ties', 'other-resource', 'rows>10240', 'equal-numbers-different-spelling', 'numeric-looking-text', 'two-resources-sorted-by-one-step', 'control-characters-after-a-prefix']
     TIERS = {'quick': dict(runs=1500, wall=100, run_wall=300),
              'thorough': dict(runs=40000, wall=1700, run_wall=600)}
     SHRINK_FROZEN = ('fields',)
@@ -112,8 +121,12 @@ class C12(Prop):
         form = rng.choice(['fmt-n', 'fmt-s', 'list-n', 'list-s', 'list-nm', 'fmt-ns', 'fmt-nms', 'callable', 'list-ss'])
         key = {'fmt-n': '{n}', 'fmt-s': '{s}', 'list-n': ['n'], 'list-s': ['s'], 'list-nm': ['n', 'm'], 'fmt-ns': '{n}|{s}', 'fmt-nms': '{n}{m}-{s}',
                'callable': {'callable': rng.choice(['lower', 'len', 'id'])}, 'list-ss': ['s', 's']}[form]
-        return {'table': {'name': 'res', 'fields': fields, 'rows': rows}, 'key': key, 'reverse': rng.random() < 0.4, 'other': rng.random() < 0.3,
-                'batch': rng.sample([1, 2, 7, 1000], 2), 'kv': rng.sample([1, 3, 64, 10240], 2)}
+        sc = {'table': {'name': 'res', 'fields': fields, 'rows': rows}, 'key': key, 'reverse': rng.random() < 0.4, 'other': rng.random() < 0.3,
+              'batch': rng.sample([1, 2, 7, 1000], 2), 'kv': rng.sample([1, 3, 64, 10240], 2)}
+        if rng.random() < 0.2:
+            pf = [{'name': '_id', 'type': 'integer'}, {'name': 'n', 'type': 'string'}, {'name': 'm', 'type': 'string'}, {'name': 's', 'type': 'string'}]
+            sc['pre'] = {'name': 'pre', 'fields': pf, 'rows': [[9000 + i, rng.choice(['x10', 'x9', 'x', 'y']), rng.choice(['p', 'q']), rng.choice(spool)] for i in range(rng.choice([1, 2, 5]))]}
+        return sc
 
     def execute(self, sc, ctx):
         rows = T.rows_of(sc['table'])
@@ -136,6 +149,10 @@ class C12(Prop):
             v = r['value']
             if v['kv_ops'] and kvsize < len(rows):
                 ctx.probe('spill-path')
+            if sc.get('pre'):
+                pwant, _pk = ref_order(dict(sc, table=sc['pre']))
+                if v.get('pre_ids') != pwant:
+                    ctx.violation('order', 'other-selected-resource', 'the first selected resource came out as %r, expected %r (%s); %s' % (v.get('pre_ids'), pwant, knobs, desc))
             got = v['ids']
             if sorted(got) != sorted(ids):
                 ctx.violation('permutation', 'ids', 'output ids %r are not a permutation of the input ids (%s); %s' % (got[:40], knobs, desc))
@@ -163,6 +180,10 @@ class C12(Prop):
     def _probes(self, sc, ctx, rows, keys):
         if sc.get('reverse'):
             ctx.probe('reverse')
+        if sc.get('pre'):
+            ctx.probe('two-resources-sorted-by-one-step')
+        if any(isinstance(r.get('s'), str) and any(ord(ch) < 32 for ch in r['s']) for r in rows):
+            ctx.probe('control-characters-after-a-prefix')
         if any(r.get('s') in ('10', '9', '1e3', 'nan') for r in rows) and 's' in json.dumps(sc['key']):
             ctx.probe('numeric-looking-text')
         k = sc['key']
